@@ -236,6 +236,7 @@ func runC11(c *Ctx) {
 	c11World(c)
 	c11Find(c)
 	c11Attempts(c)
+	c11Resets(c)
 }
 
 // ---------- 1. keys ----------
@@ -1619,7 +1620,8 @@ func c11Attempts(c *Ctx) {
 		}
 		return true
 	}
-	// (a) same-second reset (recorded, not required to differ: makeUniquifier is pid + unix seconds)
+	// (a) the retry happens within the same clock second in which the failed attempt was started
+	//     (makeUniquifier alone is pid + unix seconds): the new attempt must still get a new identity
 	{
 		j := c11Job{fqSplit, 1, "chunk", 0}
 		for time.Now().Nanosecond() > 600e6 { // leave room within the current second
@@ -1631,12 +1633,25 @@ func c11Attempts(c *Ctx) {
 			if err := w.ResetFork(j.fqid, j.fork); err == nil {
 				a2, _ := w.Attempt(j.fqid, j.fork, j.job, j.chunk)
 				if time.Now().Unix() == sec {
-					if a2.Uniquifier == a1.Uniquifier {
-						r.hist("attempt_reset_same_second_same_uniquifier")
-						r.note("finding candidate (not counted as a violation): a job reset within the same clock second as its failed attempt started gets the SAME uniquifier %s (makeUniquifier = pid + unix seconds): directory %s and journal prefix %s are reused, so a straggler of the failed attempt is indistinguishable from the retry", a1.Uniquifier, a2.Path, path.Base(a2.RunFile))
-					} else {
-						r.hist("attempt_reset_same_second_new_uniquifier")
+					r.hist("attempt_resets_same_second")
+					r.count(fmt.Sprintf("attempt-same-second:%v", j), true)
+					if a2.Uniquifier == "" || a2.Uniquifier == a1.Uniquifier || a2.Path == a1.Path || a2.RunFile == a1.RunFile {
+						r.violate(Violation{Kind: "property", Key: "C11:attempt-identity-reused:same-second",
+							What:  "a job reset within the same clock second in which its failed attempt was started reuses that attempt's uniquifier (pid + unix seconds): same directory, same journal name; a straggler of the failed attempt is indistinguishable from the retry",
+							Input: map[string]interface{}{"job": j.String(), "history": "StartAttempt; errors notification; refresh; Fork.resetPartial, all within one second"},
+							Impl:  map[string]interface{}{"attempt1": a1, "attempt2": a2}, Expect: "a different uniquifier, directory and journal prefix", Broken: "attempt_exact (freshness of the uniquifier sequence)"})
 					}
+					w.ClearSeen()
+					if err := c11Notify(a1.RunFile, "main", "complete"); err == nil {
+						w.Refresh()
+						if seen := w.Seen(); len(seen) != 0 {
+							r.violate(Violation{Kind: "property", Key: "C11:stale-attempt-accepted:same-second",
+								What:  "a completion written by the failed first attempt after a same-second reset is recorded as a completion of the retry",
+								Input: map[string]interface{}{"job": j.String(), "attempt1": a1, "attempt2": a2}, Impl: seen, Expect: "ignored", Broken: "attempt_exact"})
+						}
+					}
+				} else {
+					r.hist("attempt_same_second_missed")
 				}
 			}
 		}
@@ -1707,4 +1722,70 @@ func c11Attempts(c *Ctx) {
 			}
 		}
 	}
+}
+
+// ---------- 8. resetting one job / node must not eat the pending notifications of another ----------
+
+func c11Resets(c *Ctx) {
+	r := c.Res
+	dir := path.Join(c.Scratch, "resets")
+	os.MkdirAll(path.Join(dir, "journal"), 0o755)
+	defer os.RemoveAll(dir)
+	// two stages whose relative ids are a prefix of one another without a component boundary
+	w, err := core.VerifNewWorld(fmt.Sprintf(c11MroTemplate, "ST", "ST2", "PIPE"), "ps", dir)
+	if err != nil {
+		r.note("resets: cannot build world: %v", err)
+		return
+	}
+	fqA, fqB := "ID.ps.TOP.PIPE.ST", "ID.ps.TOP.PIPE.ST2"
+	for _, fq := range []string{fqA, fqB} {
+		for i := 0; i < 12; i++ {
+			if _, err := w.AddFork(fq, []c11Part{{Kind: "arr", Index: i, Len: 12, Static: true}}, 2); err != nil {
+				r.note("resets: AddFork: %v", err)
+				return
+			}
+		}
+	}
+	check := func(key, what string, hist string, expect []core.VerifSeen) {
+		w.ClearSeen()
+		if err := w.Refresh(); err != nil {
+			r.note("resets: refresh: %v", err)
+			return
+		}
+		seen := w.Seen()
+		r.count("reset:"+key, true)
+		r.hist("reset_scenarios")
+		if fmt.Sprint(seen) != fmt.Sprint(expect) {
+			r.violate(Violation{Kind: "property", Key: key, What: what,
+				Input: map[string]interface{}{"nodes": []string{fqA, fqB}, "history": hist},
+				Impl:  seen, Expect: expect, Broken: "route_roundtrip (a notification of another job must survive the reset and be routed to its owner)"})
+		}
+	}
+	// (a) chunk-granular reset of fork1's failed split job (not uniquified, as with MRO_UNIQUIFIED_DIRECTORIES=disable
+	//     or before the first uniquify) while fork10 / fork11 of the same stage have notifications pending
+	if err := c11Notify(w.RunFile(fqB, 1, "split", -1), "split", "errors"); err == nil {
+		w.Refresh()
+		if st := w.JobState(fqB, 1, "split", -1); st != "failed" {
+			r.note("resets: split job is %q after errors", st)
+		}
+		c11Notify(w.RunFile(fqB, 10, "split", -1), "split", "complete")
+		c11Notify(w.RunFile(fqB, 11, "join", -1), "join", "complete")
+		if err := w.ResetFork(fqB, 1); err != nil {
+			r.note("resets: ResetFork: %v", err)
+		}
+		check("C11:reset-deletes-foreign-journal:partial",
+			"resetting a failed job deleted the pending journal entries of OTHER forks whose name merely starts with the reset fork's name (fork1 / fork10, fork11): their completions are lost",
+			"fork1 split fails; fork10 split_complete and fork11 join_complete are written; Fork.resetPartial(fork1); refresh",
+			[]core.VerifSeen{{Fqid: fqB, Fork: 10, Job: "split", Chunk: -1, Name: "complete"}, {Fqid: fqB, Fork: 11, Job: "join", Chunk: -1, Name: "complete"}})
+	}
+	// (b) full-stage reset (MRO_FULLSTAGERESET) of node ST while node ST2 has a notification pending
+	c11Notify(w.RunFile(fqB, 0, "split", -1), "split", "complete")
+	if err := w.ResetNode(fqA, true); err != nil {
+		r.note("resets: Node.reset(full): %v", err)
+		return
+	}
+	check("C11:reset-deletes-foreign-journal:full-stage",
+		"a full-stage reset of one node deleted the pending journal entries of ANOTHER node whose id merely starts with the reset node's id (TOP.PIPE.ST / TOP.PIPE.ST2)",
+		"ST2 fork0 split_complete is written; Node.reset(ST) with FullStageReset; refresh",
+		[]core.VerifSeen{{Fqid: fqB, Fork: 0, Job: "split", Chunk: -1, Name: "complete"}})
 }
